@@ -209,6 +209,36 @@ func idSweep(full bool, f func(m model.Message) bool) {
 			return
 		}
 	}
+	// every registered identifier of the five transform types with and without a Key Length attribute (some algorithms have a
+	// fixed key size: the attribute travels all the same), and proposals numbered 0 in any position
+	for ty := uint8(1); ty <= 5; ty++ {
+		for id := uint16(0); id <= 40; id++ {
+			for _, bits := range []uint16{0, 128, 192, 256} {
+				tr := model.Transform{Type: ty, ID: id}
+				if bits != 0 {
+					tr.Attr = &model.Attr{TV: true, Type: 14, Value: bits}
+				}
+				sa := &model.SA{Proposals: []model.Proposal{{Number: 1, Protocol: 3, SPI: pat(4, 1), Transforms: []model.Transform{tr, {Type: 5, ID: 0}}},
+					{Number: 0, Protocol: 3, SPI: pat(4, 2), Transforms: []model.Transform{{Type: 1, ID: 12, Attr: &model.Attr{TV: true, Type: 14, Value: 128}}, tr}},
+					{Number: 0, Protocol: 3, SPI: pat(4, 3), Transforms: []model.Transform{tr}}}}
+				if !emit(int(id), model.Payload{Kind: model.KSA, SA: sa}) {
+					return
+				}
+			}
+		}
+	}
+	// selectors whose port fields are at the ends of the range in every order (OPAQUE is start 65535, end 0)
+	for _, k := range []string{model.KTSi, model.KTSr} {
+		for _, ports := range [][2]uint16{{65535, 0}, {65535, 65535}, {0, 0}, {1, 0}, {0, 65535}, {65535, 1}} {
+			for _, proto := range []uint8{0, 6, 17, 1, 58} {
+				sels := []model.Selector{{Type: 7, Protocol: proto, StartPort: ports[0], EndPort: ports[1], StartAddr: pat(4, 1), EndAddr: pat(4, 9)},
+					{Type: 8, Protocol: proto, StartPort: ports[0], EndPort: ports[1], StartAddr: pat(16, 1), EndAddr: pat(16, 9)}}
+				if !emit(int(proto), model.Payload{Kind: k, TS: &model.TS{Selectors: sels}}) {
+					return
+				}
+			}
+		}
+	}
 	// certificate requests listing trust anchors (20-octet hashes), some of them more than once
 	{
 		a, b, c := pat(20, 0x11), pat(20, 0x22), pat(20, 0x33)
